@@ -44,9 +44,18 @@ struct Idx {
     /// the case used an id > 1023 or an offset >= 2^30 (outside the property's field limits):
     /// reload results are compared with the model only
     oor: bool,
+    /// the case stored a key with an all-zero 9-byte prefix (file bytes then differ from the
+    /// entry-level model image, which drops such records): no `file` requests
+    zero_used: bool,
+    /// exact mirror of the directory: the map each bucket's file holds (= the reference map of
+    /// that bucket when the file was last written: save_all, flush with pending updates, or the
+    /// flush a mutator performs on a full update section) and the number of update-section
+    /// entries in that file
+    disk_map: HashMap<K9, Loc>,
+    disk_log_len: Vec<usize>,
     failed: bool,
     trace: Vec<String>,
-    // statistics mirror
+    // mirror of the update-section lengths (exact: every append, flush, clear and reload is tracked)
     log_len: Vec<usize>,
     full_hits: u64,
     flushes: u64,
@@ -62,7 +71,8 @@ impl Idx {
             dir, mgr, refm: HashMap::new(), clean: true,
             snaps: (0..16).map(|_| HashSet::from([0u64])).collect(), cur: vec![0; 16],
             snaps_nz: HashSet::from([0u64]), cur_nz: 0,
-            oor: false, failed: false, trace: vec![], log_len: vec![0; 16],
+            oor: false, zero_used: false, disk_map: HashMap::new(), disk_log_len: vec![0; 16],
+            failed: false, trace: vec![], log_len: vec![0; 16],
             full_hits: 0, flushes: 0, tomb_gets: 0, reloads: 0,
         }
     }
@@ -85,10 +95,17 @@ impl Idx {
         }
         self.touch(b);
     }
+    /// bucket `b`'s file is (re)written from the current reference map
+    fn wrote_bucket(&mut self, b: usize, log_len: usize) {
+        self.disk_map.retain(|k, _| bucket9(k) as usize != b);
+        for (k, v) in &self.refm { if bucket9(k) as usize == b { self.disk_map.insert(*k, *v); } }
+        self.disk_log_len[b] = log_len;
+    }
     fn appended(&mut self, b: usize, cap: usize) {
         if self.log_len[b] >= cap {
             self.full_hits += 1;
             self.flushes += 1;
+            self.wrote_bucket(b, 0);
             self.log_len[b] = 0;
             // the bucket was written with the map as it was BEFORE this mutation: that state is
             // already in snaps
@@ -228,6 +245,7 @@ impl H {
                 let kk = k9(&key);
                 let b = bucket9(&kk) as usize;
                 if id > 1023 || off >= (1 << 30) { ix.oor = true; }
+                if kk == [0u8; 9] { ix.zero_used = true; }
                 if toks[0] == "add" {
                     let r = ix.mgr.add_entry(&ek, id, off, size);
                     ix.appended(b, cap);
@@ -335,7 +353,7 @@ impl H {
                 let b: u8 = b.parse().ok()?;
                 let r = ix.mgr.flush_updates_for_bucket(b);
                 if (b as usize) < 16 {
-                    if ix.log_len[b as usize] > 0 { ix.flushes += 1; }
+                    if ix.log_len[b as usize] > 0 { ix.flushes += 1; ix.wrote_bucket(b as usize, 0); }
                     ix.log_len[b as usize] = 0;
                 }
                 if r.is_err() { Self::fail(s, &mut ix.failed, &ix.trace, "flush-err", format!("flush_updates_for_bucket({b}) failed: {r:?}")); }
@@ -343,7 +361,7 @@ impl H {
             }
             ["flushall"] => {
                 let r = ix.mgr.flush_all_updates();
-                for b in 0..16 { if ix.log_len[b] > 0 { ix.flushes += 1; } ix.log_len[b] = 0; }
+                for b in 0..16 { if ix.log_len[b] > 0 { ix.flushes += 1; ix.wrote_bucket(b, 0); } ix.log_len[b] = 0; }
                 if r.is_err() { Self::fail(s, &mut ix.failed, &ix.trace, "flush-err", format!("flush_all_updates failed: {r:?}")); }
                 if r.is_ok() { "ok".into() } else { "err".into() }
             }
@@ -353,6 +371,8 @@ impl H {
                 ix.clean = true;
                 for b in 0..16 { ix.snaps[b] = HashSet::from([ix.cur[b]]); }
                 ix.snaps_nz = HashSet::from([ix.cur_nz]);
+                ix.disk_map = ix.refm.clone();
+                ix.disk_log_len = ix.log_len.clone();
                 if r.is_ok() { "ok".into() } else { "err".into() }
             }
             ["clear", b] => {
@@ -399,8 +419,24 @@ impl H {
                         }
                     }
                 }
+                // exact clause (Props.C05.index_refines_map_durable): every bucket comes back as the
+                // map it held when its file was last written
+                if !ix.oor && !ix.failed {
+                    let mut want: Vec<(u8, K9, Loc)> = ix.disk_map.iter().map(|(k, v)| (bucket9(k), *k, *v)).collect();
+                    want.sort();
+                    if v != want {
+                        let missing: Vec<&(u8, K9, Loc)> = want.iter().filter(|e| !v.contains(e)).collect();
+                        let extra = v.iter().filter(|e| !want.contains(e)).count();
+                        let sig = if extra == 0 && !missing.is_empty() && missing.iter().all(|e| e.1 == [0u8; 9]) { "reload-loses-all-zero-key" }
+                            else if extra == 0 { "reload-misses-entries-of-last-written-state" }
+                            else if missing.is_empty() { "reload-has-entries-newer-or-older-than-last-written-state" }
+                            else { "reload-not-last-written-state" };
+                        Self::fail(s, &mut ix.failed, &ix.trace, sig, format!("reload: {} entries loaded, the files were last written with {} entries; {} of those missing (first {:?}), {extra} loaded entries are not in the last written state", v.len(), want.len(), missing.len(), missing.first().map(|e| hex::encode(e.1))));
+                    }
+                }
                 // restart the reference from what was loaded
                 ix.refm = v.iter().map(|(_, k, l)| (*k, *l)).collect();
+                ix.disk_map = ix.refm.clone();
                 ix.cur = vec![0; 16];
                 for (b, k, l) in &v { ix.cur[*b as usize] ^= mix(k, l); }
                 for b in 0..16 { ix.snaps[b] = HashSet::from([ix.cur[b]]); }
@@ -408,10 +444,33 @@ impl H {
                 for (b, k, l) in &v { if *b == 0 && *k != [0u8; 9] { ix.cur_nz ^= mix(k, l); } }
                 ix.snaps_nz = HashSet::from([ix.cur_nz]);
                 ix.clean = true;
-                // log lengths after load = update entries in the files; unknown to the mirror:
-                // statistics only
-                for b in 0..16 { ix.log_len[b] = 0; }
+                // log lengths after load = update entries in the files
+                ix.log_len = ix.disk_log_len.clone();
                 if r.is_ok() { "ok".into() } else { "err".into() }
+            }
+            ["file", b] => {
+                let b: u8 = b.parse().ok()?;
+                match std::fs::read(ix.dir.path().join(format!("{b:02x}00000001.idx"))) {
+                    Ok(bytes) => rle(&bytes),
+                    Err(_) => "none".into(),
+                }
+            }
+            ["parse", b, data] => {
+                let b: u8 = b.parse().ok()?;
+                let bytes = unrle(data)?;
+                let td = tempfile::tempdir().expect("tempdir");
+                let p = td.path().join(format!("{b:02x}00000001.idx"));
+                std::fs::write(&p, &bytes).expect("write");
+                let mut m = IndexManager::new(td.path());
+                match m.load_index(b, &p) {
+                    Ok(()) => {
+                        let v = Self::iter_sorted(&m);
+                        let mut o = format!("n={}", v.len());
+                        for (b, k, l) in &v { o.push_str(&format!(" {b}:{}:{}:{}:{}", hex::encode(k), l.0, l.1, l.2)); }
+                        o
+                    }
+                    Err(_) => "err".into(),
+                }
             }
             _ => return None,
         };
@@ -490,6 +549,46 @@ impl H {
     }
 }
 
+/// lower-case hex with zero runs of 8 or more bytes written `z<n>;` (same as Driver/C05 `rle`)
+fn rle(bytes: &[u8]) -> String {
+    if bytes.is_empty() { return "-".into(); }
+    let mut o = String::with_capacity(bytes.len() / 4);
+    let mut i = 0;
+    while i < bytes.len() {
+        if bytes[i] == 0 {
+            let mut j = i;
+            while j < bytes.len() && bytes[j] == 0 { j += 1; }
+            let z = j - i;
+            if z < 8 { for _ in 0..z { o.push_str("00"); } } else { o.push_str(&format!("z{z};")); }
+            i = j;
+        } else {
+            o.push_str(&format!("{:02x}", bytes[i]));
+            i += 1;
+        }
+    }
+    o
+}
+fn unrle(s: &str) -> Option<Vec<u8>> {
+    if s == "-" { return Some(vec![]); }
+    let c = s.as_bytes();
+    let mut o = vec![];
+    let mut i = 0;
+    while i < c.len() {
+        if c[i] == b'z' {
+            let j = i + 1 + c[i + 1..].iter().position(|&x| x == b';')?;
+            let n: usize = std::str::from_utf8(&c[i + 1..j]).ok()?.parse().ok()?;
+            if n > 16_777_216 { return None; }
+            o.extend(std::iter::repeat(0u8).take(n));
+            i = j + 1;
+        } else {
+            if i + 2 > c.len() { return None; }
+            o.push(u8::from_str_radix(std::str::from_utf8(&c[i..i + 2]).ok()?, 16).ok()?);
+            i += 2;
+        }
+    }
+    Some(o)
+}
+
 // ---------------------------------------------------------------- generators
 
 /// key whose 9-byte prefix folds to bucket `b`: bytes k0=k1, k2=k3, k4=k5, k6=k7, k8 = c with
@@ -552,6 +651,40 @@ impl Gen<'_> {
         self.s.case(if nontrivial { Some(&t) } else { None });
     }
     fn key_s(k: &[u8; 16]) -> String { hex::encode(k) }
+
+    /// byte-level tie: `file b` compares the real .idx bytes of bucket `b` with the model's
+    /// serialiser (only while every stored entry is inside the field limits with a non-zero key:
+    /// the entry-level model image drops the others); `parse b <bytes>` runs the real
+    /// `load_index` and the model's `parseFile` on the same bytes (the real file, optionally
+    /// truncated / with header fields changed)
+    fn file_probe(&mut self, rng: &mut Rng, bs: &[u8], mutate: bool) {
+        let (ok, dir) = match &self.h.mode {
+            Mode::Idx(ix) => (!ix.oor && !ix.zero_used, ix.dir.path().to_path_buf()),
+            _ => return,
+        };
+        let b = *rng.pick(bs);
+        if ok {
+            let r = self.emit(format!("file {b}"));
+            self.s.tally(if r == "none" { "idx.file.absent" } else if r.contains('z') && r.len() > 200 { "idx.file.compared(with update section)" } else { "idx.file.compared(sorted section only)" });
+        }
+        if let Ok(mut bytes) = std::fs::read(dir.join(format!("{b:02x}00000001.idx"))) {
+            if bytes.len() > 300_000 { return; }
+            let kind = if mutate { rng.below(6) } else { 9 };
+            let n = bytes.len();
+            match kind {
+                0 => { bytes.truncate(rng.below(n as u64 + 1) as usize); self.s.tally("idx.parse.truncated"); }
+                1 if n > 14 => { bytes[14] = *rng.pick(&[16u8, 9, 10, 0, 255]); self.s.tally("idx.parse.key_len_changed"); }
+                2 if n > 13 => { let i = 12 + rng.below(2) as usize; bytes[i] = rng.below(12) as u8; self.s.tally("idx.parse.field_len_changed"); }
+                3 if n > 36 => {
+                    let v = (rng.below(2 * n as u64 + 40) as u32).to_le_bytes();
+                    bytes[32..36].copy_from_slice(&v);
+                    self.s.tally("idx.parse.block_size_changed");
+                }
+                _ => { self.s.tally("idx.parse.real_file"); }
+            }
+            self.emit(format!("parse {b} {}", rle(&bytes)));
+        }
+    }
 
     /// random op on a key pool
     fn random_op(&mut self, rng: &mut Rng, pool: &[[u8; 16]], buckets: &[u8], oor: bool, w_reload: u64) {
@@ -646,8 +779,12 @@ fn run_index(g: &mut Gen, rng: &mut Rng, thorough: bool) {
         g.begin_idx();
         let (pool, bs) = Gen::small_pool(rng, false);
         let n = rng.range(10, if thorough { 160 } else { 90 }) as usize;
-        for _ in 0..n { g.random_op(rng, &pool, &bs, false, if c % 3 == 0 { 0 } else { 4 }); }
-        if rng.chance(1, 2) { g.emit("save".into()); g.emit("reload".into()); }
+        for _ in 0..n {
+            g.random_op(rng, &pool, &bs, false, if c % 3 == 0 { 0 } else { 4 });
+            if rng.chance(1, 12) { g.file_probe(rng, &bs, false); }
+        }
+        if rng.chance(1, 2) { g.emit("save".into()); if rng.chance(1, 2) { g.file_probe(rng, &bs, false); } g.emit("reload".into()); }
+        g.file_probe(rng, &bs, true);
         for k in &pool { g.emit(format!("get {}", Gen::key_s(k))); }
         g.end_idx("mixed-small-pool");
     }
@@ -657,6 +794,7 @@ fn run_index(g: &mut Gen, rng: &mut Rng, thorough: bool) {
         let (pool, bs) = Gen::small_pool(rng, true);
         let n = rng.range(10, 60) as usize;
         for _ in 0..n { g.random_op(rng, &pool, &bs, false, if c % 2 == 0 { 0 } else { 3 }); }
+        g.file_probe(rng, &bs, c % 2 == 1);
         for k in &pool { g.emit(format!("get {}", Gen::key_s(k))); }
         g.end_idx("zero-key-in-pool");
     }
@@ -667,6 +805,7 @@ fn run_index(g: &mut Gen, rng: &mut Rng, thorough: bool) {
         let n = rng.range(10, 70) as usize;
         for _ in 0..n { g.random_op(rng, &pool, &bs, true, 5); }
         g.emit("save".into());
+        g.file_probe(rng, &bs, false);
         g.emit("reload".into());
         for k in &pool { g.emit(format!("get {}", Gen::key_s(k))); }
         g.end_idx("beyond-field-limits");
@@ -708,6 +847,7 @@ fn run_index(g: &mut Gen, rng: &mut Rng, thorough: bool) {
         // dropped by an off-by-one in the page loop — slipped through before this step existed)
         if c % 2 == 1 || c == 0 {
             g.emit("save".into());
+            g.file_probe(rng, &[b], false);
             g.emit("reload".into());
             g.emit("count".into());
             g.emit(format!("get {}", Gen::key_s(&fam[(i.max(1) - 1) % fam.len()])));
@@ -759,7 +899,10 @@ fn run_index(g: &mut Gen, rng: &mut Rng, thorough: bool) {
         let pool: Vec<[u8; 16]> = (0..12).map(|j| fam[(j * 101) % fam.len()]).collect();
         let extra = if thorough { 120 } else { 40 };
         for _ in 0..extra { g.random_op(rng, &pool, &[b], false, 4); }
+        // restart WITHOUT save_all: the bucket comes back as of its last write (mutator flush)
+        if c % 4 == 1 { g.emit("reload".into()); g.emit("count".into()); }
         if c % 2 == 0 { g.emit("save".into()); g.emit("reload".into()); }
+        g.file_probe(rng, &[b], c % 2 == 1);
         for v in &victims { g.emit(format!("get {}", Gen::key_s(v))); }
         g.end_idx("fill-update-section");
     }
